@@ -30,6 +30,14 @@ Section Generator.
     | Draw q k => let '(d, s') := draw q s in run (k d) s'
     end.
 
+  (* sequencing: simulate_gt, then write_breakpoints, then output_vcf - each stage
+     continues from the generator state the previous one left *)
+  Fixpoint bindP {A B} (p : prog A) (f : A -> prog B) : prog B :=
+    match p with
+    | Ret a => f a
+    | Draw q k => Draw q (fun d => bindP (k d) f)
+    end.
+
   (* simulate_gt: `if seed is not None: np.random.seed(seed)` (legacy: `if seed:`) *)
   Definition guard_fires (legacy : bool) (seed : option Z) : bool :=
     match seed with
